@@ -45,12 +45,16 @@ def run(ctx, prop=PROP):
 
     results, stale = proved_part(prop)
     mon, totals = runner.run_sharded(drive_iindex.work, ctx.tier)
-    if prop == "C07":
-        # "including ... construction from arrays": the well-formedness clauses of from_array's contract (same run as C01)
+    if prop in ("C07", "C15"):
+        # C07 "including ... construction from arrays": the well-formedness clauses of from_array's contract (same run as C01);
+        # C15 "building from an array without one": the mode clause of the same contract, under every mapping of the scope
         from ..rtc import drive_convert
 
         mon2, totals2 = runner.run_sharded(drive_convert.work, ctx.tier)
-        keep = lambda ob: ob.startswith("iindexes.iindex.from_array/ensures-wf-") or ob == "iindexes.iindex.from_array/ensures-validate"  # noqa
+        if prop == "C07":
+            keep = lambda ob: ob.startswith("iindexes.iindex.from_array/ensures-wf-") or ob == "iindexes.iindex.from_array/ensures-validate"  # noqa
+        else:
+            keep = lambda ob: ob == "iindexes.iindex.from_array/ensures-common-is-mode"  # noqa
         for ob, n in mon2.evals.items():
             if keep(ob):
                 mon.evals[ob] += n
